@@ -100,7 +100,7 @@ pub fn bsub_units(alphabet_len: usize) -> Vec<(Kind, DimMode, Field, BOp, Option
 struct NoHooks;
 
 impl StubHooks for NoHooks {
-    fn on_call(&self, _t: f64) -> Option<UserError> {
+    fn on_call(&self, _t: f64, _ymax: f64) -> Option<UserError> {
         None
     }
     fn problem(&self) -> Problem {
